@@ -121,6 +121,8 @@ def gen(tier, seed, chunk, nch):
             # text must list everything all the same
             at = rng.randrange(len(d["opts"]) - 1)
             d["interleave"] = [(at, rng.choice(["USAGE F", "USAGE C", "PARSE A"]))]
+        if rng.random() < 0.25:
+            d["moved"] = rng.choice(["MOVE", "MOVEA"])     # the text of a parser that was moved after its declaration
         cases.append({"decl": d, "prefix": prefix})
     return cases
 
@@ -312,6 +314,8 @@ def check_text(decl, text):
 def evaluate(case, lines, S):
     ul = [l for l in lines if l.startswith("U ")]
     early = sum(1 for _, raw in case["decl"].get("interleave", ()) if raw.startswith("USAGE"))
+    if case["decl"].get("moved"):
+        S.counters["parser-moved-before-use:" + case["decl"]["moved"]] += 1
     if early:
         S.counters["text-requested-before-the-declaration-was-complete"] += 1
         ul = ul[early:]
